@@ -29,7 +29,7 @@ PROP_MODULES = ["OV.Props.C05"]
 QUICK_N = {"clipclip": 170, "cliprelu": 70, "reluclip": 90, "relurelu": 6, "minmax": 220, "unit": 220, "dropout": 30, "cast": 110,
            "perm": 120, "axes": 100, "reshape": 260, "slice": 150, "scatter": 90, "gemm": 140, "pad": 170, "normpad": 110,
            "bias": 50, "bn": 110, "expandbin": 200, "misc": 20, "matmul": 200, "hardswish": 120, "convaffine": 70,
-           "dynscatter": 60, "slicesplit": 90, "ccos": 40}
+           "dynscatter": 60, "slicesplit": 90, "ccos": 40, "norm": 110}
 
 
 # (family/kind/outcome) combinations every untruncated run must hit: each modelled rule both firing and refusing, and the
@@ -38,7 +38,7 @@ REQUIRED_BRANCHES = [
     "clipclip/-/fire", "clipclip/-/nofire", "clipclip/-/raise", "cliprelu/-/fire", "cliprelu/-/nofire", "reluclip/-/fire", "reluclip/-/nofire",
     "relurelu/-/fire",
     "minmax/minMin/fire", "minmax/maxMax/fire", "minmax/maxMin/fire", "minmax/minMax/fire", "minmax/minMax/nofire", "minmax/maxMin/nofire",
-    "unit/-/fire", "unit/-/nofire", "dropout/-/fire", "dropout/-/nofire",
+    "unit/-/fire", "unit/-/nofire", "dropout/-/fire", "dropout/-/nofire", "misc/rotary1/fire", "misc/rotary2/fire", "misc/gqa/fire",
     "cast/noop/fire", "cast/noop/nofire", "cast/castcast/fire", "cast/castcast/nofire",
     "perm/noop/fire", "perm/noop/nofire", "perm/tt/fire", "axes/unsq/fire", "axes/unsq/nofire", "axes/sq/fire", "axes/sq/nofire",
     "reshape/flatten/fire", "reshape/flatten/nofire", "reshape/rr/fire", "reshape/rr/nofire", "reshape/expand/fire", "reshape/expand/nofire",
@@ -48,7 +48,7 @@ REQUIRED_BRANCHES = [
     "matmul/mm1/fire", "matmul/mm1/nofire", "matmul/mm2/fire", "matmul/gemm/fire", "matmul/gemm/nofire",
     "hardswish/sig/fire", "hardswish/swish/fire", "hardswish/hs2/fire", "hardswish/sig/nofire", "hardswish/hs2/nofire",
     "convaffine/ca/fire", "convaffine/ac/fire", "convaffine/ca/nofire", "convaffine/ac/nofire",
-    "dynscatter/-/fire", "dynscatter/-/nofire", "slicesplit/-/fire", "slicesplit/-/nofire", "ccos/-/fire", "misc/layernorm/fire",
+    "dynscatter/-/fire", "dynscatter/-/nofire", "slicesplit/-/fire", "slicesplit/-/nofire", "ccos/-/fire", "misc/layernorm/fire", "norm/ln/fire", "norm/ln/nofire", "norm/lnbias/fire", "norm/rms/fire", "norm/rms/nofire",
 ]
 
 
@@ -62,8 +62,6 @@ def condition_token_diff() -> dict:
     snap, cur = json.loads(snap_f.read_text()), json.loads(cur_f.read_text())
     out = {}
     for k in sorted(set(snap) | set(cur)):
-        if k.startswith("fusion."):
-            continue
         if snap.get(k) != cur.get(k):
             out[k] = (" ".join(snap.get(k) or ["<absent>"]), " ".join(cur.get(k) or ["<absent>"]))
     return out
@@ -115,7 +113,7 @@ def evaluate(fam, case, drv_answer: str, np_rng, n_inputs: int = 5) -> dict:
     if impl.startswith("fire"):
         feeds = [hst.make_feeds(np_rng) for _ in range(getattr(fam, "n_inputs", n_inputs))]
         prefer = fam.prefer_for(case) if hasattr(fam, "prefer_for") else getattr(fam, "prefer", "ort")
-        status, detail = L.oracle(before, after, feeds, exact=fam.exact, prefer=prefer, tol=getattr(fam, "tol", None))
+        status, detail = L.oracle(before, after, feeds, exact=fam.exact, prefer=prefer, tol=(fam.tol_for(case) if hasattr(fam, "tol_for") else getattr(fam, "tol", None)))
         if status == "before_invalid" and hasattr(fam, "post_check"):
             bad = fam.post_check(case, after, feeds)
             if bad:
